@@ -90,7 +90,7 @@ def main():
             "replay_cmd_template": f"/verif/bin/fpcheck -prop {pid} -list -only <obligation-key>   # {{path}} holds the violated obligation keys",
             "engine": "fpcheck",
             "level_claimed": {"category": "other", "text": text, "design_ref": ref},
-            "level_note": TRUST + " Not decided here: " + notdec + ".",
+            "level_note": TRUST + " Not decided here: " + notdec + ". The thorough tier is the quick tier plus a self-test of the checker itself: overlay mutants (breaking ones must be reported, behaviour-preserving ones must stay silent) and a replay of the patch corpus collected from sub-agents (confirmed breaking changes of this property must still be reported, recorded behaviour-preserving changes must stay silent); it analyses source only, nothing is executed.",
             "technique": "static analysis: " + tech,
         })
     na = []
